@@ -605,3 +605,51 @@ Proof.
   apply orb_true_iff in H1. destruct H1 as [H1|H1]; [left | right; exact H1].
   destruct (r_targets c); [discriminate | reflexivity].
 Qed.
+
+(** ** Part 5. how the end-to-end theorems stated for [run_shapes] transfer to
+    [run_shapes_cur]: rewrite with the equality on the domain the theorem
+    already has (its own hypotheses imply [order_dom]), then apply it *)
+
+(** C02, remove_empty_shapes off (any algebra, any threshold, any graph) *)
+Corollary cur_keys_iff_occ fa c thr g ns shapes :
+  r_remove_empty c = false -> run_shapes_cur fa c thr g = inl (ns, shapes) ->
+  exists I, track (r_tau c) (mode_of c) (r_cap c) g = inl I /\
+    map sh_class shapes = class_keys (targets_of (pcfg_of c)) I /\
+    forall sh, In sh shapes ->
+      sh_n sh = class_count I (sh_class sh) /\
+      (forall inv p vc, In (inv, p, vc) (map (skey (scfg_of c ns)) (sh_stmts sh)) <->
+                        key_passes_occ fa c thr I g (sh_class sh) inv p vc) /\
+      (no_nonliteral_datatype g -> NoDup (map (skey (scfg_of c ns)) (sh_stmts sh))).
+Proof.
+  intros Hre H. rewrite (run_shapes_cur_eq_keep fa c thr g Hre) in H.
+  exact (e2e_keys_iff_occ fa c thr g ns shapes Hre H).
+Qed.
+
+(** C12, any setting of remove_empty_shapes *)
+Corollary cur_run_keys_monotone_valid c thr1 thr2 g ns1 s1 ns2 s2 :
+  class_iris_ok c g = true -> wf_frac thr1 -> wf_frac thr2 ->
+  fle BAlg thr1 thr2 = true -> fle BAlg thr2 (fone BAlg) = true ->
+  (N.of_nat (List.length g) < 2 ^ 53)%N ->
+  run_shapes_cur BAlg c thr1 g = inl (ns1, s1) -> run_shapes_cur BAlg c thr2 g = inl (ns2, s2) ->
+  ns1 = ns2 /\ Forall2 (keys_shrink (scfg_of c ns1)) s1 s2.
+Proof.
+  intros Hcls W1 W2 Hle Hle2 Hg R1 R2.
+  assert (Hle1 : fle BAlg thr1 (fone BAlg) = true).
+  { apply (fle_trans _ _ _ BAlg_laws thr1 thr2 (fone BAlg)); auto. apply (fone_ok _ _ _ BAlg_laws). }
+  rewrite (run_shapes_cur_eq_valid c thr1 g Hcls W1 Hle1 Hg) in R1.
+  rewrite (run_shapes_cur_eq_valid c thr2 g Hcls W2 Hle2 Hg) in R2.
+  exact (run_keys_monotone_valid c thr1 thr2 g ns1 s1 ns2 s2 Hcls W1 W2 Hle Hle2 Hg R1 R2).
+Qed.
+
+(** C14, any setting of remove_empty_shapes *)
+Corollary cur_run_direct_unchanged_valid c thr g ns st :
+  class_iris_ok c g = true -> wf_frac thr -> fle BAlg thr (fone BAlg) = true ->
+  (N.of_nat (List.length g) < 2 ^ 53)%N ->
+  run_shapes_cur BAlg (rwith_inverse true c) thr g = inl (ns, st) ->
+  exists sf, run_shapes_cur BAlg (rwith_inverse false c) thr g = inl (ns, sf) /\ Forall2 direct_part st sf.
+Proof.
+  intros Hcls Hw Hle Hg H.
+  rewrite (run_shapes_cur_eq_valid (rwith_inverse true c) thr g Hcls Hw Hle Hg) in H.
+  rewrite (run_shapes_cur_eq_valid (rwith_inverse false c) thr g Hcls Hw Hle Hg).
+  exact (run_direct_unchanged_valid c thr g ns st Hcls Hw Hle Hg H).
+Qed.
